@@ -1,6 +1,7 @@
 #![allow(dead_code)]
 mod consts;
 mod d1;
+mod d2;
 mod d3;
 mod d5;
 mod d5gen;
@@ -38,6 +39,7 @@ fn main() {
     match args.first().map(|s| s.as_str()) {
         Some("consts") => consts::run(),
         Some("d3") => run("d3", &d3::gen, &mut d3::exec),
+        Some("d2") => run("d2", &d2::gen, &mut d2::exec),
         Some("d1") => {
             let mut ex = d1::Exec::new();
             run("d1", &d1::gen, &mut |l, o| ex.line(l, o))
